@@ -94,7 +94,7 @@ Definition ignore (c : cur) : cur :=
   {| before := []; after := after c; gpos := gpos c; width := width c;
      pending := pending c; lfs := lfs c; out := out c |}.
 
-Definition current (c : cur) : bytes := rev (before c).
+Definition current (c : cur) : bytes := frev (before c).
 
 Definition emit (t : tok) (c : cur) : cur :=
   {| before := []; after := after c; gpos := gpos c; width := width c; pending := pending c; lfs := lfs c;
@@ -262,7 +262,7 @@ Definition init_cur (chunks : list bytes) : cur :=
 Definition lex (chunks : list bytes) : list token * list N :=
   let n := S (S (total_len chunks)) in
   let c := lex_run n n (init_cur chunks) in
-  (rev (out c), lfs c).
+  (frev (out c), lfs c).
 
 Definition tok_name (t : tok) : bytes :=
   bs match t with
